@@ -3,13 +3,13 @@ a scripted packet list published into a real media.Stream while clients of mixed
 stop and finally see the stream end."""
 import base64
 
-TCP, UDP, WSRTSP, WSP, HTTPFLV, WSFLV = range(6)
+TCP, UDP, WSRTSP, WSP, HTTPFLV, WSFLV, MCAST = range(7)
 SPS = base64.b64decode("Z2QAH6zZQFAFuhAAAAMAEAAAAwPI8YMZYA==")
 PPS = base64.b64decode("aO+8sA==")
 
-def rtp_header(pt, seq, ts, marker=True):
+def rtp_header(pt, seq, ts, ssrc, marker=True):
     return bytes([0x80, (0x80 if marker else 0) | pt, (seq >> 8) & 255, seq & 255,
-                  (ts >> 24) & 255, (ts >> 16) & 255, (ts >> 8) & 255, ts & 255, 0x11, 0x22, 0x33, 0x44])
+                  (ts >> 24) & 255, (ts >> 16) & 255, (ts >> 8) & 255, ts & 255]) + ssrc
 
 def blob(rng, n):
     s = rng.randrange(256)
@@ -19,19 +19,26 @@ def blob(rng, n):
 def gen_packets(rng, n, big_ok, max_small=1400):
     """(channel, data, tag): tag 3 = SPS, 4 = PPS, else 0; parameter sets and a key frame first"""
     out = []
+    ssrc = bytes(rng.randrange(256) for _ in range(4))   # per case: tells our datagrams from foreign multicast traffic
     seq = {0: 100, 2: 500}
     frame = 0
     def video(nal_hdr, body, tag=0):
         nonlocal frame
         seq[0] += 1
         frame += 1
-        out.append([0, rtp_header(96, seq[0], 3600 * frame) + bytes([nal_hdr]) + body, tag])
+        out.append([0, rtp_header(96, seq[0], 3600 * frame, ssrc) + bytes([nal_hdr]) + body, tag])
     def size():
         r = rng.random()
-        if r < 0.5:
+        if r < 0.4:
             return rng.randint(2, 60)
-        if r < 0.9:
+        if r < 0.7:
             return rng.randint(60, max_small)
+        if r < 0.9:
+            # packet lengths on and next to the boundaries a transport may care about (13 = RTP header + NAL header)
+            lim = 65535 if big_ok else max_small
+            total = rng.choice([x for x in (128, 255, 256, 512, 1000, 1024, 1200, 1400, 1460, 1500, 2048, 4096, 8192, 16384, 32768, 65535)
+                                if x <= lim]) + rng.choice([0, 0, -1, 1])
+            return max(2, min(total, 65535) - 13)
         if big_ok and r < 0.97:
             return rng.choice([4000, 9000, 20000, 65000, 65535 - 13])
         return rng.choice([2, 3, max_small])
@@ -50,11 +57,11 @@ def gen_packets(rng, n, big_ok, max_small=1400):
         elif r < 0.85:
             seq[2] += 1
             m = rng.choice([1, 7, 100, 400, 1000])
-            out.append([2, rtp_header(97, seq[2], 1024 * seq[2]) + bytes([0x00, 0x10, (m >> 5) & 255, (m << 3) & 255]) + blob(rng, m), 0])
+            out.append([2, rtp_header(97, seq[2], 1024 * seq[2], ssrc) + bytes([0x00, 0x10, (m >> 5) & 255, (m << 3) & 255]) + blob(rng, m), 0])
         else:
             ch = rng.choice([1, 3])
             # RTCP sender report (28 bytes), optionally followed by an empty SDES
-            sr = bytes([0x80, 200, 0, 6, 0x11, 0x22, 0x33, 0x44]) + blob(rng, 8) + bytes([0, 0, 0, 1, 0, 0, 0, 9, 0, 0, 1, 0])
+            sr = bytes([0x80, 200, 0, 6]) + ssrc + blob(rng, 8) + bytes([0, 0, 0, 1, 0, 0, 0, 9, 0, 0, 1, 0])
             out.append([ch, sr, 0])
     return out[:max(n, 3)]
 
@@ -62,7 +69,7 @@ def gen_chmap(rng, kind):
     if kind in (HTTPFLV, WSFLV):
         return [0, 1, 2, 3]
     r = rng.random()
-    if kind == UDP:
+    if kind in (UDP, MCAST):
         return rng.choice([[0, 1, 2, 3]] * 4 + [[0, -1, 2, 3], [0, 1, -1, -1], [-1, -1, 2, 3], [0, -1, 2, -1]])
     if kind == WSP:   # WSP needs the video track (its SETUP refuses an empty video control path only) - any subset works
         return rng.choice([[0, 1, 2, 3]] * 3 + [[4, 5, 2, 3], [0, 1, -1, -1], [6, -1, 2, 3]])
@@ -82,7 +89,10 @@ def replay(pkts, k):
 def gen_case(rng, refs, kinds_pool, max_clients=3, max_pkts=14, allow_big=True):
     ncl = rng.randint(1, max_clients)
     kinds = [rng.choice(kinds_pool) for _ in range(ncl)]
-    big_ok = allow_big and UDP not in kinds and rng.random() < 0.3
+    for i, k in enumerate(kinds):   # one multicast member per case: only the first member triggers the proxy's replay
+        if k == MCAST and MCAST in kinds[:i]:
+            kinds[i] = TCP
+    big_ok = allow_big and UDP not in kinds and MCAST not in kinds and rng.random() < 0.3
     pkts = gen_packets(rng, rng.randint(4, max_pkts), big_ok)
     n = len(pkts)
     attach = sorted(rng.choice([0, 0, 3, rng.randint(0, n)]) for _ in range(ncl))
